@@ -52,6 +52,8 @@ def batch_package():
         ("genMap", N("BtGen", (M(P("string"), P("int32")),))),
     ]
     protos = [Proto("Bt" + n[:1].upper() + n[1:], [("pre", P("uint8")), ("s", S(t)), ("post", P("string"))]) for n, t in items]
+    # the first value after a stream is null (an item of the next stream, an optional step)
+    protos.append(Proto("BtNullFirst", [("a", S(P("int32"))), ("marks", S(Opt(P("int32")))), ("o", Opt(P("string"))), ("t", S(U(((None, P("int32")), (None, P("string"))), True))), ("post", P("int32"))]))
     # two streams in one protocol: block bookkeeping must reset between steps
     protos.append(Proto("BtTwo", [("a", S(M(P("string"), P("int32")))), ("b", S(N("BtOuter"))), ("post", P("int32"))]))
     return Pkg("Batch", [Inner, Outer, Triv, BtEnum, Gen] + protos)
@@ -174,7 +176,22 @@ def run(ctx):
                 ft = c.fq(t)
                 vals.append(shaped_items(vg, ft.item, n, r) if isinstance(ft, S) else vg.gen(ft, 0))
             data = c.encode_stream(proto, m.schema(proto.name), vals)
-            for mode in (("copy_to", "list", "gen", "itemwise", "pairs") if n <= 4 else ("list", "gen")):
+            if proto.name == "BtNullFirst" and n >= 1:
+                vals[1][0] = None
+                vals[2] = None
+                vals[3][0] = None
+            data = c.encode_stream(proto, m.schema(proto.name), vals)
+            # NDJSON into the Python reader (reference lines and what the generated C++ writes), out as binary
+            nd = ("\n".join(c.ndjson_lines(proto, m.schema(proto.name), vals)) + "\n").encode()
+            if n <= 4:
+                for src, text in (("reference", nd), ("c++", rt.CppEndpoint(m, "plain").copy(proto.name, "bin", "ndjson", data).out)):
+                    for mode in ("copy_to", "list"):
+                        ep = rt.PyEndpoint(m, mode=mode)
+                        res = ep.copy(proto.name, "ndjson", "bin", text)
+                        ctx.ev()
+                        ctx.count("py.ndjson-in." + mode)
+                        rt.judge(ctx, m, proto, vals, text, res, ep.name, "bin", "%s python mode %s reading %s NDJSON, %d items" % (proto.name, mode, src, n), {"mode": mode, "ndjson_from": src})
+            for mode in (("copy_to", "list", "gen", "reuse", "itemwise", "pairs") if n <= 4 else ("list", "gen", "reuse")):
                 ep = rt.PyEndpoint(m, mode=mode)
                 res = ep.copy(proto.name, "bin", "bin", data)
                 ctx.ev()
